@@ -227,6 +227,20 @@ def check_case(ctx: Ctx, c: Dict[str, Any], k: int = 0) -> None:
             if tm is not None:
                 o = guarded(cls_.__name__, lambda: tm(None, data.unsqueeze(0).unsqueeze(0)), axes=str(ax and ax.value), transform=None)
                 cmp_lin(cls_.__name__ + "(None)", o, axes=str(ax and ax.value))
+        # nearest-neighbour mode named in every accepted way (keyword / positional, str / enum)
+        from deepali.core.enum import Sampling
+
+        for how, mk in (("sampling='nearest'", lambda: cls_(target=gt, source=gs, sampling="nearest", padding=pad)), ("Sampling.NEAREST", lambda: cls_(gt, gs, None, Sampling.NEAREST, pad)),
+                        ("sampling='nn'", lambda: cls_(target=gt, source=gs, sampling="nn", padding=pad))):
+            tm = guarded(cls_.__name__, mk, mode="nearest", how=how)
+            if tm is not None:
+                o = guarded(cls_.__name__, lambda: tm(None, data.unsqueeze(0).unsqueeze(0)), mode="nearest", how=how)
+                cmp_near(cls_.__name__ + "(None)", o, how=how)
+    for how, mk in (("sampling='nearest'", lambda: SampleImage(target=gt, source=gs, sampling="nearest", padding=pad)), ("Sampling.NEAREST", lambda: SampleImage(gt, gs, None, Sampling.NEAREST, pad))):
+        sm_n = guarded("SampleImage", mk, mode="nearest", how=how)
+        if sm_n is not None:
+            o = guarded("SampleImage", lambda: sm_n(gt.coords(align_corners=gt.align_corners()).unsqueeze(0), data.unsqueeze(0).unsqueeze(0)), mode="nearest", how=how)
+            cmp_near("SampleImage", o, how=how)
     # sampling on its own grid returns the image unchanged: through the modules, with points given w.r.t. every axes
     for ax in (None, Axes.WORLD, Axes.GRID, Axes.CUBE, Axes.CUBE_CORNERS):
         if ax is Axes.CUBE_CORNERS and min(c["src"]["g"]["n"]) == 1:
